@@ -58,7 +58,7 @@ def finite_inputs(E, srt, rank):
 
 
 def chains(run):
-    FT = 90 if run.tier == "quick" else 1500
+    FT = 240 if run.tier == "quick" else 1800
     dtypes = ["float16", "bfloat16"] + (["float32"] if run.tier == "thorough" else [])
     for path in ("weights", "activations"):
         for qname in ("qint8", "qfloat8_e4m3fn", "qfloat8_e5m2", "qint4", "qint2"):
